@@ -30,16 +30,19 @@ public:
 	} 
 	static constexpr FixedPoint  epsilon() { // return smallest effective increment from 1.0
 		FixedPoint eps;
+		eps.clear();   // the default constructor leaves the storage uninitialised
 		eps.setbit(0);
 		return eps;
 	}
 	static constexpr FixedPoint  round_error() { // return largest rounding error
 		FixedPoint eps;
+		eps.clear();   // the default constructor leaves the storage uninitialised
 		eps.setbit(0);
 		return eps;
 	}
 	static constexpr FixedPoint  denorm_min() {  // return minimum denormalized value
 		FixedPoint eps;
+		eps.clear();   // the default constructor leaves the storage uninitialised
 		eps.setbit(0);
 		return eps;
 	}
